@@ -4,7 +4,9 @@ import hashlib
 import os.path
 import inspect
 import threading
+import types
 from importlib.machinery import SourceFileLoader
+from importlib.util import cache_from_source
 
 
 class CodeGenerator:
@@ -171,10 +173,12 @@ def unpack_impl(pkt, raw, offset, **k):
             if module and hasattr(module, '__cached__'):
                 module_compiled_filename = module.__cached__
             else:
-                module_compiled_filename = module_name + ".pyc"
+                module_compiled_filename = cache_from_source(module_pathname)
 
-            if os.path.exists(module_compiled_filename):
+            try:
                 os.remove(module_compiled_filename)
+            except OSError:
+                pass
 
             # creates folder to host our generated code
             os.makedirs(folder, exist_ok=True)
@@ -193,9 +197,13 @@ def unpack_impl(pkt, raw, offset, **k):
 
             os.replace(tmp_pathname, module_pathname)
 
-            # load it (again)
-            module = SourceFileLoader(module_name,
-                                      module_pathname).load_module()
+            # run the code that we have just generated, not whatever the
+            # shared path (or a stale .pyc that looks up to date) holds by
+            # now: somebody else may be defining a same-named class
+            module = types.ModuleType(module_name)
+            module.__file__ = module_pathname
+            source = import_code + cookie_code + pack_code + unpack_code
+            exec(compile(source, module_pathname, 'exec'), module.__dict__)
 
         from bisturi.packet import Packet
         if self.generate_for_pack and (
